@@ -53,6 +53,10 @@ func (l *Lifter) needRead(c *rcur, off, width Lin, what string, leaf string, pos
 type countVar struct {
 	rawDst string // raw canonical operand of the map it sizes (filled at make)
 	opDst  string
+	// stream decoders: the count was tested against what is left of the
+	// enclosing limiter, demanding limPer bytes per element
+	limChecked bool
+	limPer     int
 }
 
 // readCall matches iohelp.Read<Stem>Bytes(buf[at+o:]) possibly wrapped in a
@@ -853,6 +857,25 @@ func (l *Lifter) srBlock(stmts []ast.Stmt, counts map[string]*countVar, limited 
 								items = append(items, Item{Kind: KCount, Operand: dst, Pos: pos})
 								continue
 							}
+							// dst = make([]T, lnN) with lnN := iohelp.ReadUint32(r) read just before
+							if cid, ok := unparen(c.Args[1]).(*ast.Ident); ok && counts[cid.Name] != nil && counts[cid.Name].opDst == "" {
+								cv := counts[cid.Name]
+								cv.rawDst, cv.opDst = CanonOperand(lhs), dst
+								a := Alloc{Operand: dst, Kind: "slice", Stream: true, Hint: true, Pos: pos, Bounded: cv.limChecked}
+								if sl, ok := t.Underlying().(*types.Slice); ok {
+									if st, ok := sl.Elem().Underlying().(*types.Struct); ok && st.NumFields() == 0 {
+										a.ZeroSize = true
+									}
+									if cv.limChecked && cv.limPer > 0 {
+										if m := l.minWire(sl.Elem(), 0); m >= 0 && cv.limPer > m {
+											l.fail("overcheck", dst, pos, "the count check before make(%s) demands %d byte(s) per element of what is left of the enclosing record, but an element of this type can occupy as little as %d on the wire: a valid encoding with more elements than bytes that follow is rejected", dst, cv.limPer, m)
+										}
+									}
+								}
+								l.Allocs = append(l.Allocs, a)
+								items = append(items, Item{Kind: KCount, Operand: dst, Pos: pos})
+								continue
+							}
 						}
 					}
 				}
@@ -1058,6 +1081,14 @@ func (l *Lifter) srBlock(stmts []ast.Stmt, counts map[string]*countVar, limited 
 				}
 			}
 		case *ast.IfStmt:
+			// if lr, ok := r.Reader.(*io.LimitedReader); ok && int64(lnN) > lr.N
+			// { [r.Reader = base;] return <an error value> }: a count that
+			// announces more elements than bytes are left of the enclosing record
+			// (one byte per element) is refused before anything is allocated
+			if cvName, ok := l.limitCountGuard(x, *limited); ok && counts[cvName] != nil && counts[cvName].opDst == "" {
+				counts[cvName].limChecked, counts[cvName].limPer = true, 1
+				continue
+			}
 			// if <test of the length prefix> { r.Reader = &io.LimitedReader{…} }: the
 			// body is bounded for some prefixes only
 			if top && l.Lim.PrefixVar != "" && !l.Lim.Installed && x.Init == nil && x.Else == nil && len(x.Body.List) == 1 {
@@ -1189,6 +1220,63 @@ func keyShadows(x ast.Expr, key *ast.Ident) bool {
 // different in length) than this reader's schema can produce is not an error;
 // the one accepted form is the stream decoder's `== 0` shortcut, handled by
 // its own rule. Recorded as a failure of rule "prefixreject".
+// limitCountGuard matches the statement described at its use in srBlock and
+// returns the name of the count variable it tests.
+func (l *Lifter) limitCountGuard(x *ast.IfStmt, limited bool) (string, bool) {
+	if x.Else != nil || x.Init == nil {
+		return "", false
+	}
+	as, ok := x.Init.(*ast.AssignStmt)
+	if !ok || as.Tok != token.DEFINE || len(as.Lhs) != 2 || len(as.Rhs) != 1 {
+		return "", false
+	}
+	ta, ok := unparen(as.Rhs[0]).(*ast.TypeAssertExpr)
+	if !ok || Canon(ta.X) != "r.Reader" || Canon(ta.Type) != "*io.LimitedReader" {
+		return "", false
+	}
+	lr, okv := Canon(as.Lhs[0]), Canon(as.Lhs[1])
+	cond, ok := unparen(x.Cond).(*ast.BinaryExpr)
+	if !ok || cond.Op != token.LAND || Canon(cond.X) != okv {
+		return "", false
+	}
+	cmp, ok := unparen(cond.Y).(*ast.BinaryExpr)
+	if !ok || cmp.Op != token.GTR || Canon(cmp.Y) != lr+".N" {
+		return "", false
+	}
+	inner, conv := l.stripConv(cmp.X)
+	id, ok := unparen(inner).(*ast.Ident)
+	if !ok || conv != "int64" {
+		return "", false
+	}
+	// the body: an optional restore of the base reader, then a return of an
+	// error value that cannot be nil (a package-level error variable)
+	body := x.Body.List
+	if len(body) == 2 {
+		ras, ok := body[0].(*ast.AssignStmt)
+		if !ok || len(ras.Lhs) != 1 || len(ras.Rhs) != 1 || Canon(ras.Lhs[0]) != "r.Reader" || Canon(ras.Rhs[0]) != l.Lim.BaseVar || l.Lim.BaseVar == "" {
+			return "", false
+		}
+		body = body[1:]
+	} else if limited && !l.Lim.DeferredRestore {
+		return "", false
+	}
+	if len(body) != 1 {
+		return "", false
+	}
+	ret, ok := body[0].(*ast.ReturnStmt)
+	if !ok || len(ret.Results) != 1 {
+		return "", false
+	}
+	sel, ok := unparen(ret.Results[0]).(*ast.SelectorExpr)
+	if !ok {
+		return "", false
+	}
+	if v, ok := l.Info.Uses[sel.Sel].(*types.Var); !ok || v.Pkg() == nil || v.Parent() != v.Pkg().Scope() || !strings.HasPrefix(v.Name(), "Err") && v.Name() != "EOF" {
+		return "", false
+	}
+	return id.Name, true
+}
+
 func (l *Lifter) prefixReject(s ast.Stmt, prefix string) bool {
 	if prefix == "" {
 		return false
